@@ -14,7 +14,7 @@ import numpy as np
 import pandas as pd
 
 import vlib
-from vlib import qlit, ostr
+from vlib import qlit, ostr, flit, fme
 
 HEADER = """From Coq Require Import QArith ZArith String List.
 From PG Require Import Lib.Num Lib.Py Lib.Show Gen.UnitsGen1 Units.AdsOracle Gen.UnitsGen2 Units.UnitsSpec Units.UnitsSpecQ.
@@ -118,13 +118,13 @@ def gen_cases(tier, seed):
         expect = None
         if ak == 'A' and temp and not unitless_with_unit(m1, u1, m2, u2):
             if r1 and r2:
-                spec = 'showqv (spec_convQ (p_canonQ %s %s) (p_canonQ %s %s) %s)' % (
+                spec = '(spec_convQ (p_canonQ %s %s) (p_canonQ %s %s) %s)' % (
                     qlit(ADS['A']['saturation_pressure']), coq_prep(r1), qlit(ADS['A']['saturation_pressure']), coq_prep(r2), qlit(v))
                 expect = 'value'
             else:
                 expect = 'refuse'
         cases.append(dict(fn='c_pressure', args=(v, m1, m2, u1, u2, ak, temp),
-                          coq='showq (c_pressure QNum %s %s %s %s %s %s %s)' % (qlit(v), ostr(m1), ostr(m2), ostr(u1), ostr(u2), coq_ads(ak), onum(temp)),
+                          coq='(c_pressure QNum %s %s %s %s %s %s %s)' % (qlit(v), ostr(m1), ostr(m2), ostr(u1), ostr(u2), coq_ads(ak), onum(temp)),
                           spec=spec, expect=expect))
 
     modes = ['absolute', 'relative', 'relative%', None, 'bogus', '']
@@ -162,12 +162,12 @@ def gen_cases(tier, seed):
                 a = ADS['A']
                 m = mat or ('mass', 'g')
                 cq = 'l_canonQ %s %s %s %s' % (qlit(a['molar_mass']), qlit(a['liquid_molar_density']), qlit(a['gas_molar_density']), coq_mrep(m))
-                spec = 'showqv (spec_convQ (%s %s) (%s %s) %s)' % (cq, coq_lrep(r1), cq, coq_lrep(r2), qlit(v))
+                spec = '(spec_convQ (%s %s) (%s %s) %s)' % (cq, coq_lrep(r1), cq, coq_lrep(r2), qlit(v))
                 expect = 'value'
             else:
                 expect = 'refuse'
         cases.append(dict(fn='c_loading', args=(v, b1, b2, u1, u2, ak, T, bm, um),
-                          coq='showq (c_loading QNum %s %s %s %s %s %s %s %s %s)' % (qlit(v), ostr(b1), ostr(b2), ostr(u1), ostr(u2), coq_ads(ak), onum(T), ostr(bm), ostr(um)),
+                          coq='(c_loading QNum %s %s %s %s %s %s %s %s %s)' % (qlit(v), ostr(b1), ostr(b2), ostr(u1), ostr(u2), coq_ads(ak), onum(T), ostr(bm), ostr(um)),
                           spec=spec, expect=expect))
 
     mats = MREPS if tier == 'thorough' else [('mass', 'g'), ('volume', 'cm3'), ('molar', 'mmol'), ('mass', 'kg')]
@@ -198,12 +198,12 @@ def gen_cases(tier, seed):
             if r1 and r2:
                 d = MATS['M1']
                 cq = 'm_canonQ %s %s' % (qlit(d['density']), qlit(d['molar_mass']))
-                spec = 'showqv (spec_convQ (%s %s) (%s %s) %s)' % (cq, coq_mrep(r2), cq, coq_mrep(r1), qlit(v))
+                spec = '(spec_convQ (%s %s) (%s %s) %s)' % (cq, coq_mrep(r2), cq, coq_mrep(r1), qlit(v))
                 expect = 'value'
             else:
                 expect = 'refuse'
         cases.append(dict(fn='c_material', args=(v, b1, b2, u1, u2, mk),
-                          coq='showq (c_material QNum %s %s %s %s %s %s)' % (qlit(v), ostr(b1), ostr(b2), ostr(u1), ostr(u2), coq_mat(mk)),
+                          coq='(c_material QNum %s %s %s %s %s %s)' % (qlit(v), ostr(b1), ostr(b2), ostr(u1), ostr(u2), coq_mat(mk)),
                           spec=spec, expect=expect))
 
     for r1, r2 in itertools.product(MREPS, MREPS):
@@ -228,12 +228,12 @@ def gen_cases(tier, seed):
             spec = expect = None
             if p1 and p2:
                 d = {('K', 'C'): Fraction(-27315, 100), ('C', 'K'): Fraction(27315, 100)}.get((p1, p2), Fraction(0))
-                spec = 'showqv (%s + %s)' % (qlit(v), qlit(d))
+                spec = '(%s + %s)' % (qlit(v), qlit(d))
                 expect = 'value'
             else:
                 expect = 'refuse'
             cases.append(dict(fn='c_temperature', args=(v, u1, u2),
-                              coq='showq (c_temperature QNum %s %s %s)' % (qlit(v), ostr(u1), ostr(u2)), spec=spec, expect=expect))
+                              coq='(c_temperature QNum %s %s %s)' % (qlit(v), ostr(u1), ostr(u2)), spec=spec, expect=expect))
     return cases
 
 
@@ -285,16 +285,34 @@ def explore(rep, tier, seed):
             a[5] = mats[a[5]]
         return a
     impl = [call(fns[c['fn']], *pyargs(c)) for c in cases]
+    TOL = '1 100000000000'   # 1e-11 relative, compared INSIDE Coq (exact rationals vs the float's exact value)
+
+    def me(i):
+        oc, val = impl[i]
+        return vlib.fme(float(val)) if oc == 'Ok' else (0, 0)
+
+    def occode(i):
+        oc = impl[i][0]
+        return vlib.EXN.index(oc) if oc in vlib.EXN else 99
     model = None
     try:
-        model = vlib.run_coq_cases('c01m', HEADER, 'fun x : Z*Z*Z => x', [c['coq'] for c in cases])
+        model = vlib.run_coq_cases('c01m', HEADER, 'fun x : Z*Z => x',
+                                   ['cmpq %s %s (%d) (%d) (%d)' % (TOL, c['coq'], occode(i), me(i)[0], me(i)[1]) for i, c in enumerate(cases)])
     except RuntimeError as e:
         rep.broken_obligation('correspondence:UnitsGen-evaluation', str(e)[-800:])
-    speci = [i for i, c in enumerate(cases) if c['spec']]
-    spec = vlib.run_coq_cases('c01s', HEADER, 'fun x : Z*Z*Z => x', [cases[i]['spec'] for i in speci])
-    specv = {i: Fraction(s[1], s[2]) for i, s in zip(speci, spec)}
+    speci = [i for i, c in enumerate(cases) if c['spec'] and impl[i][0] == 'Ok']
+    spec = vlib.run_coq_cases('c01s', HEADER, 'fun x : Z*Z => x', ['cmpqv %s %s (%d) (%d)' % (TOL, cases[i]['spec'], me(i)[0], me(i)[1]) for i in speci])
+    spec_ok = {i: s[1] == 1 for i, s in zip(speci, spec)}
+
+    def spec_value(i):   # only for the report of a failing case
+        try:
+            r = vlib.run_coq_cases('c01v', HEADER, 'fun x : Z*Z*Z => x', ['showqv %s' % cases[i]['spec']])[0]
+            return float(Fraction(r[1], r[2]))
+        except Exception:
+            return None
 
     n_dis = 0
+    n_rep = 0
     nontrivial = set()
     hist = {}
     for i, c in enumerate(cases):
@@ -302,22 +320,21 @@ def explore(rep, tier, seed):
         hist[(c['fn'], oc)] = hist.get((c['fn'], oc), 0) + 1
         # (a) correspondence model vs implementation
         if model is not None:
-            code, num, den = model[i]
-            moc = vlib.EXN[code]
-            agree = (moc == oc) and (oc != 'Ok' or vlib.close(float(val), Fraction(num, den)))
+            code, agree = model[i]
             if not agree:
                 n_dis += 1
                 if n_dis <= 5:
                     rep.broken_obligation('correspondence:UnitsGen-vs-implementation',
                                           {'call': c['fn'], 'args': [str(x) for x in c['args']], 'implementation': [oc, None if val is None else float(val)],
-                                           'model': [moc, None if code else float(Fraction(num, den))]})
+                                           'model_outcome': vlib.EXN[code]})
         # (b) property oracle on the implementation
         if c['expect'] == 'value':
-            want = specv[i]
-            if oc != 'Ok' or not vlib.close(float(val), want):
-                rep.failure(classify(c, oc), '%s%r returned %s, SI factor gives %r' % (c['fn'], c['args'], (oc, val), float(want)),
-                            {'call': c['fn'], 'args': list(c['args']), 'expected': float(want), 'observed': [oc, None if val is None else float(val)]})
-            elif want != Fraction(c['args'][0]):
+            if oc != 'Ok' or not spec_ok[i]:
+                n_rep += 1
+                want = spec_value(i) if n_rep <= 12 else None
+                rep.failure(classify(c, oc), '%s%r returned %s, SI factor gives %r' % (c['fn'], c['args'], (oc, val), want),
+                            {'call': c['fn'], 'args': list(c['args']), 'expected': want, 'observed': [oc, None if val is None else float(val)]})
+            elif float(val) != c['args'][0]:
                 nontrivial.add((c['fn'],) + tuple(c['args'][1:]))
         elif c['expect'] == 'refuse':
             if oc != 'ParameterError':
